@@ -5,31 +5,31 @@ ROOT = os.path.dirname(os.path.dirname(os.path.abspath(__file__)))
 SOLVER = 'symbolic execution of the real source (verif.see) + SMT (z3 5.1) equivalence against an independent oracle circuit'
 CHECKS = {
     'C01': dict(cat='model_checking', ref='4/C01',
-                text='CTL.modelcheck and everything below it is executed symbolically from source on a Kripke structure whose transition and label bits are unknowns: one merged run per formula covers every total structure with n<=3 states over {p,q} (n=4 with label bits forked). z3 proves the result vector equal to an independently built CTL fixpoint circuit, absence of exceptions and complete unrolling; ~2,300 formulas quick (depth<=2), more in thorough. The formula dimension is enumeration of programs.',
+                text='CTL.modelcheck and everything below it is executed symbolically from source on a Kripke structure whose transition and label bits are unknowns: one merged run per formula covers every total structure with n<=3 states over {p,q} (n=4 with label bits forked). z3 proves the result vector equal to an independently built CTL fixpoint circuit, absence of exceptions and complete unrolling; ~2,300 formulas quick (depth<=2), more in thorough; label-independent formulas at n=4 cover every 4-state structure in one fork. The formula dimension is enumeration of programs.',
                 note='bounded: n<=3 merged, n=4 sampled forks (all 256 in thorough); 2 atoms; formulas from stated sets; evaluator/simplifier trusted but audited (all rewrite lemmas re-proved per run, 13 raw n=2 runs, translator validation vs native)',
                 tech=SOLVER),
     'C02': dict(cat='model_checking', ref='4/C02',
                 text='LTL.modelcheck (closure, atom construction, tableau, SCCs, reachability) executed symbolically; per formula A g one merged run covers all total structures with n<=2 states (n=3 for small formulas in thorough); z3 proves equality with a product/Emerson-Lei oracle circuit whose fixpoint stability is itself a solver obligation; the oracle\'s exclusions are certified by solver-found concrete lassos re-evaluated by an independent lasso evaluator.',
-                note='bounded: n<=2 (3), 2 atoms, ~800 path formulas of depth<=2 plus seeded depth-3 ones, cost cut by number of elementary formulas e<=3 (4 at n=1); no raw (un-reduced) run possible for the tableau; /repo at fix commits dce0478+a1b7f49',
+                note='bounded: n<=2 (3), 2 atoms, ~1,300 path formulas (all of depth<=2, every unary chain of depth 3, n-ary and/or, seeded depth-3 ones), cost cut by number of elementary formulas e<=3 (4 at n=1); no raw (un-reduced) run possible for the tableau; /repo at fix commits dce0478+a1b7f49',
                 tech=SOLVER),
     'C03': dict(cat='model_checking', ref='4/C03',
-                text='CTLS.modelcheck incl. clone, fresh-atom labelling, CTL fast path, TypeError->LTL fallback and the E=not A not branch executed symbolically; per formula one merged run covers all total structures with n<=2 (3 thorough); z3 proves equality with the CTL* product oracle circuit. ~280 formulas with quantifier nesting <=2.',
+                text='CTLS.modelcheck incl. clone, fresh-atom labelling, CTL fast path, TypeError->LTL fallback and the E=not A not branch executed symbolically; per formula one merged run covers all total structures with n<=2 (3 thorough); z3 proves equality with the CTL* product oracle circuit. ~290 formulas with quantifier nesting <=2 incl. n-ary connectives under quantifiers.',
                 note='bounded: n<=2 (3), 2 atoms, formulas from stated sets (enumeration of programs); vacuity twin: some runs must encode the LTL fallback',
                 tech=SOLVER),
     'C04': dict(cat='model_checking', ref='4/C04',
-                text='No oracle: two or three implementation runs share one symbolic structure and z3 proves their result vectors equal -- CTL vs CTLS on ~120 CTL formulas (n=3), LTL vs CTL vs CTLS on the common fragment (n=2), text vs object input, and 16 CTL / 7 LTL law schemas (complement, and/or/implies, A g = not E not g, fixpoint expansions) over formula pairs (f,g) as identities between result vectors.',
+                text='No oracle: two or three implementation runs share one symbolic structure and z3 proves their result vectors equal -- CTL vs CTLS on ~120 CTL formulas (n=3), LTL vs CTL vs CTLS on the common fragment (n=2), n-ary formulas over a third atom, text vs object input, and 16 CTL / 7 LTL law schemas (complement, and/or/implies, A g = not E not g, fixpoint expansions) over formula pairs (f,g) as identities between result vectors.',
                 note='bounded: n<=3 (2 where the tableau runs); formula pairs from stated sets; catches an implementation and the oracle of C01-C03 being wrong in the same way',
                 tech='symbolic execution of the real source (verif.see) + SMT (z3 5.1) equivalence between implementation circuits'),
     'C05': dict(cat='model_checking', ref='4/C05',
-                text='get_equivalent_restricted_formula and LNot run natively on ~1,100 enumerated formulas of the three logics; input and output formula are both translated by the reference semantics into circuits over symbolic models and z3 searches for a distinguishing model: every total Kripke structure with 3 states (state formulas) and every (k,l)-lasso with k<=5 (path formulas). Output alphabet and "no leading double negation" are checked on the trees.',
+                text='get_equivalent_restricted_formula and LNot run natively on ~3,400 enumerated formulas (operator pairs and triples over distinct atoms, unary chains) of the three logics; input and output formula are both translated by the reference semantics into circuits over symbolic models and z3 searches for a distinguishing model: every total Kripke structure with 3 states (state formulas) and every (k,l)-lasso with k<=5 (path formulas). Output alphabet and "no leading double negation" are checked on the trees.',
                 note='no model-checking code is involved; formula dimension is enumeration of programs; known finding D12 (LTL A-rooted formulas raise AttributeError) is excluded by construction and reported',
                 tech='SMT (z3 5.1) equivalence of two oracle circuits over symbolic models; rewriters run natively'),
     'C06': dict(cat='model_checking', ref='4/C06',
-                text='The exactness obligations of C01-C03 re-decided under varied presentation: all 6 orders of presenting/iterating 3 states, states renamed to strings/tuples/mixed types, atoms renamed, seeded global orders of formula sets (tie order of the closure sort; models the hash seed), and an unreachable extra state; the oracle is presentation-independent, so unsat for all is invariance.',
+                text='The exactness obligations of C01-C03 re-decided under varied presentation: all 6 orders of presenting/iterating 3 states, states renamed to strings/tuples/mixed types, atoms renamed, seeded global orders of formula sets (tie order of the closure sort; models the hash seed) incl. CTL* formulas that reach the tableau, and an unreachable extra state; the oracle is presentation-independent, so unsat for all is invariance.',
                 note='order model = one global order per run (per-site independent orders outside); PYTHONHASHSEED as a process setting is not what the solver decides -- it is modelled through the order of sets; sample of 4 (24 thorough) formula-set orders',
                 tech=SOLVER + ', iteration order forked'),
     'C07': dict(cat='model_checking', ref='4/C07',
-                text='Heap obligations on the symbolic runs of all three checkers (with/without F, text/object): z3 proves every bit of the caller\'s structure (successor sets, label sets incl. new atoms, S0, object identities) equals its pre-call snapshot; result shares no set with K; formula prints unchanged; call / call-on-other-structure-with-same-formula / call returns equal vectors; call / mutate result / call returns equal vectors.',
+                text='Heap obligations on the symbolic runs of all three checkers (with/without F, text/object): z3 proves every bit of the caller\'s structure (successor sets, label sets incl. new atoms, S0, object identities) equals its pre-call snapshot; result shares no set with K; formula prints unchanged; call / call-on-other-structure-with-same-formula / call returns equal vectors; call / mutate result / call returns equal vectors; call / the caller edits K in place / call returns the answer for the edited structure (module-level containers of the interpreted modules persist across the calls of a run).',
                 note='bounded: n<=3; histories of length 3; writes to module globals or class attributes would make the run inconclusive rather than be modelled',
                 tech=SOLVER + ' (heap snapshot equality)'),
     'C08': dict(cat='model_checking', ref='4/C08',
@@ -41,7 +41,7 @@ CHECKS = {
                 note='printed length bound, not depth bound; atoms identifier-style and not reserved; tree equality of the round trip is enumeration',
                 tech='grammar extracted from the live printers + SAT (z3 5.1) bounded ambiguity / inclusion; native round trips'),
     'C10': dict(cat='model_checking', ref='4/C10',
-                text='The LALR table and contextual-lexer decisions are extracted from the live Parser() of each logic on every run; the parser loop on a symbolic lexeme string (<=4 lexemes quick, 5 thorough; 14-21 lexemes incl. all operator spellings, identifiers, an escaped string) is a step-indexed transition system with explicit stack; the documented grammar is a CYK table over the same string; z3 proves accepts(w) -> documented(w), that every run terminates without stack overflow; solver-enumerated accepted and rejected strings are replayed through the real parser (formula of exactly that logic / UnexpectedToken|UnexpectedCharacters with position inside the input); 160 cross-fed strings natively.',
+                text='The LALR table and contextual-lexer decisions are extracted from the live Parser() of each logic on every run; the parser loop on a symbolic lexeme string (<=4 lexemes quick, 5 thorough; 14-21 lexemes incl. all operator spellings, identifiers, an escaped string) is a step-indexed transition system with explicit stack; the documented grammar is a CYK table over the same string; z3 proves accepts(w) -> documented(w), that every run terminates without stack overflow; solver-enumerated accepted and rejected strings are replayed through the real parser (formula of exactly that logic / UnexpectedToken|UnexpectedCharacters with position inside the input), the escaped-string lexeme instantiated with 11 contents (quotes, backslashes, malformed escapes); ~470 cross-fed strings natively.',
                 note='token level only: character-level lexing and strings longer than L lexemes are outside; Lark is never interpreted, its table is taken as the definition of the real parser and validated by the replays',
                 tech='parser automaton extracted from the live objects + SAT (z3 5.1) bounded language inclusion against a CYK encoding of the documented grammar'),
     'C11': dict(cat='model_checking', ref='4/C11',
@@ -53,27 +53,27 @@ CHECKS = {
                 note='bounded: n<=4 (5 thorough); one global iteration order per run; evaluator and simplifier trusted but audited (rewrite lemmas re-proved, n=2 raw run, translator validation vs native on 150 random graphs)',
                 tech=SOLVER),
     'C13': dict(cat='model_checking', ref='4/C13',
-                text='get_reachable_set_from, get_reversed_graph (once and twice), get_subgraph and clone run symbolically WITHOUT functional reduction on all digraphs with n<=5 (6 thorough) and all node subsets; solver proves equality with closure / flipped matrix / induced subgraph circuits and that the receiver is unchanged and shares no set object.',
+                text='get_reachable_set_from (n<=5), get_reversed_graph (once, twice, and again after the receiver was modified), get_subgraph and clone (n<=5, 6 thorough) run symbolically WITHOUT functional reduction on all digraphs and all node subsets; solver proves equality with closure / flipped matrix / induced subgraph circuits and that the receiver is unchanged and shares no set object.',
                 note='bounded: n<=5/6; all nodes present, subsets may name one non-node; raw circuits decided by z3',
                 tech=SOLVER + ' (raw circuits, no simplifier)'),
     'C14': dict(cat='model_checking', ref='4/C14',
-                text='Kripke.__init__, labels/next, clone and get_substructure executed symbolically with symbolic membership of S, R, S0, symbolic keys/values of L and a symbolic subset V over a 3-value universe (+1 never-a-state value): z3 proves "raises RuntimeError <=> some node has no successor", no other exception type, exact contents of the constructed/cloned/induced structure, label sets are copies, receiver unchanged. 80 forks x 2^15-2^16 argument combinations.',
+                text='Kripke.__init__, labels/next, clone and get_substructure executed symbolically with symbolic membership of S, R, S0, symbolic keys/values of L and a symbolic subset V over a 3-value universe (+1 never-a-state value): z3 proves "raises RuntimeError <=> some node has no successor", no other exception type, exact contents of the constructed/cloned/induced structure, label sets are copies, receiver unchanged, and the accessor contract again after replace_labelling_function with symbolic keys and a non-state key. 80 forks x 2^15-2^16 argument combinations.',
                 note='bounded: universe of 3 (+1), one atom; /repo at fix commit 36a2c0d',
                 tech=SOLVER),
     'C15': dict(cat='model_checking', ref='4/C15',
                 text='get_fair_states and CTL/CTLS.modelcheck(K,f,F) executed symbolically with symbolic fairness sets (|F|<=2) and compared by z3 with an Emerson-Lei fair-semantics oracle. Holds and is decided: get_fair_states is a subset of the fair states on every input; equality and modelcheck==fair semantics outside the classes of the four OPEN known findings D7-D10 (class predicates are conjoined negated to the violation query; each listed witness is re-found natively and printed as KNOWN-FINDING); F=[] and F=[S] equal the unconstrained answer; no exception and K unchanged also inside the classes.',
-                note='bounded: n<=3, |F|<=2, ~150 CTL formulas without constants; genuine defects D7-D10 are recorded, not repaired (reasons in known_findings.json / DESIGN.md section 5); /repo at fix commit 3d1a560',
+                note='bounded: n<=3 (two atoms), |F|<=2, ~150 CTL formulas without constants; genuine defects D7-D10 are recorded, not repaired (reasons in known_findings.json / DESIGN.md section 5); /repo at fix commit 3d1a560',
                 tech=SOLVER),
     'C16': dict(cat='model_checking', ref='4/C16',
-                text='The real unique table (BDDNode/BDDNonTerminalNode/BDDTerminalNode.__new__, find_isomorph, __reset__), apply/compute, __invert__, restrict and the OBDD wrappers run symbolically with the truth-table bits of two functions as unknowns: one merged run covers all ordered pairs (2 variables: all ops; 3 variables: all 65,536 pairs for construction, and for &,|,^ in thorough). z3 proves identical root <=> equal tables, OBDD.__eq__ agrees, and no two live non-terminals share (var, low, high). Histories of any length with dropping and collection are covered by ONE INDUCTIVE STEP: from an arbitrary pool of <=4 (6 thorough) nodes, each live or collected, satisfying the representation invariant (reduced, unique triples, parent sets = live parents), BDDNonTerminalNode(var, low, high) with arbitrary live arguments returns low / the isomorphic live node / a fresh registered node, touches nothing else, and the invariant holds again (raw circuits, ~30-50 unknowns).',
-                note='garbage collection enters only through the WeakSet contract (a collected node is absent from every parent set): CPython finalisation order and a collection during find_isomorph\'s iteration are not modelled; a native build/drop/gc stress run cross-checks the contract and is reported as such; canonicity of results of operations is decided for <=3 variables only',
+                text='The real unique table (BDDNode/BDDNonTerminalNode/BDDTerminalNode.__new__, find_isomorph, __reset__), apply/compute, __invert__, restrict and the OBDD wrappers run symbolically with the truth-table bits of two functions as unknowns: one merged run covers all ordered pairs (2 variables: all ops; 3 variables: all 65,536 pairs for construction, &,|,^ with one operand pinned to each literal/constant in quick, all pairs in thorough). z3 proves identical root <=> equal tables, OBDD.__eq__ agrees, and no two live non-terminals share (var, low, high). Histories of any length with dropping and collection are covered by ONE INDUCTIVE STEP: from an arbitrary pool of <=4 (6 thorough) nodes, each live or collected, satisfying the representation invariant (reduced, unique triples, parent sets = live parents), BDDNonTerminalNode(var, low, high) with arbitrary live arguments returns low / the isomorphic live node / a fresh registered node, touches nothing else, and the invariant holds again (raw circuits, ~30-50 unknowns).',
+                note='garbage collection enters only through the WeakSet contract (a collected node is absent from every parent set): CPython finalisation order and a collection during find_isomorph\'s iteration are not modelled; native creation/drop/collect histories (25 seeded random ones and ~800 scripted two-route ones) are exploration and are reported as such, a failing history is replayed in a fresh interpreter; canonicity of results of operations is decided for <=3 variables only',
                 tech=SOLVER.replace('an independent oracle circuit', 'truth-table oracle circuits')),
     'C17': dict(cat='model_checking', ref='4/C17',
                 text='On the same symbolic runs z3 proves that f&g, f|g, f^g, ~f and f.restrict(v,b) denote the pointwise operation / cofactor on every assignment for every function (pair) of the bound, that every node reachable from a result is reduced and ordered, double negation returns the identical root, and variables() is exactly the support. RuntimeError clauses are examined natively on 6 cases.',
-                note='bounded: 2 variables all ops, 3 variables unary ops (binary in thorough), 4 variables unary in thorough; two orderings',
+                note='bounded: 2 variables all ops, 3 variables unary ops and binary ops with one literal operand (all pairs in thorough), 4 variables unary in thorough; two orderings',
                 tech=SOLVER.replace('an independent oracle circuit', 'truth-table oracle circuits')),
     'C18': dict(cat='model_checking', ref='4/C18',
-                text='Solver part: the real expression parser runs on a SYMBOLIC ast tree (depth<=2 over & | and or ~ not, n-ary and; leaves a b c 0 1 True False): the operator skeleton is forked (512 runs) and the four leaves are merged, so each run covers 4,096 trees; z3 proves the diagram denotes the expression on all assignments, is well-formed, nothing raises. Exploration part (natively, enumeration): lambda vs expression notation and keyword synonyms over enumerated texts x 2 argument orders; str() round trip for EVERY function of 3 variables x 6 orderings; 16 error cases.',
+                text='Solver part: the real expression parser runs on a SYMBOLIC ast tree (depth<=2 over & | and or ~ not, n-ary and; leaves a b c 0 1 True False and a variable outside the ordering): the operator skeleton is forked (512 runs) and the four leaves are merged, so each run covers 4,096 trees; z3 proves RuntimeError is raised exactly when a used leaf is outside the ordering, and otherwise the diagram denotes the expression on all assignments, is well-formed, nothing else raises. Exploration part (natively, enumeration): lambda vs expression notation and keyword synonyms over enumerated texts x 2 argument orders; str() round trip for EVERY function of 3 variables x 6 orderings and 3,000 seeded 4-variable functions; ~1,800 error-propagation expressions; 16 error cases.',
                 note='the round-trip, lambda-notation and error clauses are exploration (each native run pins its input), reported separately in evidence; /repo at fix commits 0348f4e, 6cbd413, df24c68',
                 tech=SOLVER + ' for the parser; exhaustive native enumeration for printing round trips'),
     'C19': dict(cat='model_checking', ref='4/C19',
